@@ -12,8 +12,11 @@ The model contains the code as it is:
 
 The flag `patch` switches on the *proposed minimal repair of D4 alone* (`unlock` notifies one waiter when the count
 drops to 0): it is not the code, it is there to show what the repair has to contain — with D4 repaired and D6 left
-in, two fibers own the mutex at once (`Props/C18.lean`, `patchD4_alone_violated_witness`).  Every theorem about the
-code is stated for `patch = false`.
+in, two fibers own the mutex at once (`Props/C18.lean`, `patchD4_alone_violated_witness`).  The flag `loop` switches
+on the proposed repair of D6 (`while` instead of `if`, in `lock()` and — with the deadline fixed at the call — in
+`TimedWaitHelper`).  `patch = loop = true` is the code of notes/C18_proposed_patches.diff, for which the full theorems
+are proved.  Every theorem about the code as it is is stated for `patch = false` (and any `loop`: without a notify the
+continuation after the wait is dead code).
 -/
 import YaclibModel.Model.FiberSync
 
@@ -26,6 +29,8 @@ inductive Pc where
   | woken                      -- … notified: `LockHelper()` next
   | tParked (req dl : Nat)     -- `TimedWaitHelper`: on `_queue` and the sleep list
   | tWoken
+  | locking                    -- (repaired, `loop`) notified: evaluates the `while` condition of `lock()` again
+  | tLocking (req : Nat)       -- (repaired, `loop`) notified: evaluates `while (r && …)` of `TimedWaitHelper` again
   | sleeping (dl : Nat)
   deriving DecidableEq, Repr
 
@@ -39,14 +44,20 @@ def Pc.woke : Pc → Bool
   | .tWoken => true
   | _ => false
 
-def wake : Pc → Pc
-  | .parked => .woken
-  | .tParked _ _ => .tWoken
+def Pc.rechecks : Pc → Bool
+  | .locking => true
+  | .tLocking _ => true
+  | _ => false
+
+def wake (loop : Bool) : Pc → Pc
+  | .parked => if loop then .locking else .woken
+  | .tParked req _ => if loop then .tLocking req else .tWoken
   | p => p
 
 structure State where
   timed : Bool
-  patch : Bool                 -- hypothetical: D4 repaired alone (see header); `false` = the code
+  patch : Bool                 -- hypothetical: D4 repaired (see header); `false` = the code
+  loop : Bool                  -- hypothetical: D6 repaired (see header); `false` = the code
   pc : Fid → Pc
   owner : Option Fid           -- `_owner_id` (0 = nobody)
   count : Nat                  -- `_occupied_count`
@@ -54,11 +65,12 @@ structure State where
   now : Nat
   -- ghost
   holders : List Fid           -- one entry per successful acquisition not yet released
+  transit : List Fid           -- fibers made runnable by a NotifyOne that have not run yet (repaired variant)
   barge : Nat                  -- D6 hits: `LockHelper()` by a woken fiber while another fiber owns the mutex
 
-def init (timed patch : Bool) (n : Nat) : State :=
-  { timed := timed, patch := patch, pc := fun g => if g < n then .idle else .done, owner := none, count := 0,
-    rq := [], now := 0, holders := [], barge := 0 }
+def init (timed patch loop : Bool) (n : Nat) : State :=
+  { timed := timed, patch := patch, loop := loop, pc := fun g => if g < n then .idle else .done, owner := none,
+    count := 0, rq := [], now := 0, holders := [], transit := [], barge := 0 }
 
 /-- the condition under which `lock()` / `try_lock()` do not wait: `!(_occupied_count != 0 && _owner_id != me)` -/
 def Free (s : State) (f : Fid) : Prop := s.count = 0 ∨ s.owner = some f
@@ -78,13 +90,15 @@ inductive Label where
   | tlfAcq (f : Fid)                             -- `f E ret try_lock_for 1`
   | tlfPark (f : Fid) (t d j : Nat)              -- `f M rq park_timed 0 @t j=j`
   | tlfTimeout (f : Fid) (t : Nat)               -- `f M rq wake 1 @t`
+  | tlfRepark (f : Fid) (j : Nat)                -- (repaired) `f M rq park_timed 0 j=j` after a wake-up
   | sleepStart (f : Fid) (t d : Nat) | sleepWake (f : Fid) (t : Nat)
   | finish (f : Fid)
   deriving DecidableEq, Repr
 
 /-- `LockHelper()`: `_occupied_count++; _owner_id = me` -/
 def lockHelper (s : State) (f : Fid) : State :=
-  { s with count := s.count + 1, owner := some f, holders := s.holders ++ [f], pc := upd s.pc f .idle }
+  { s with count := s.count + 1, owner := some f, holders := s.holders ++ [f], pc := upd s.pc f .idle,
+           transit := rm s.transit f }
 
 def doWokenAcq (s : State) (f : Fid) : State :=
   { lockHelper s f with barge := s.barge + (if s.count ≠ 0 ∧ s.owner ≠ some f then 1 else 0) }
@@ -95,9 +109,13 @@ def doUnlock (s : State) (f : Fid) : State :=
 
 def notifyR (s : State) : Option Fid → State
   | none => s
-  | some g => { s with rq := rm s.rq g, pc := upd s.pc g (wake (s.pc g)) }
+  | some g => { s with rq := rm s.rq g, pc := upd s.pc g (wake s.loop (s.pc g)), transit := s.transit ++ [g] }
 
-def doPark (s : State) (f : Fid) : State := { s with rq := s.rq ++ [f], pc := upd s.pc f .parked }
+def doPark (s : State) (f : Fid) : State :=
+  { s with rq := s.rq ++ [f], pc := upd s.pc f .parked, transit := rm s.transit f }
+
+def doTlfRepark (s : State) (f : Fid) (req j : Nat) : State :=
+  { s with rq := s.rq ++ [f], pc := upd s.pc f (.tParked req (req + j)), transit := rm s.transit f }
 
 def doTlfPark (s : State) (f : Fid) (t d j : Nat) : State :=
   { s with rq := s.rq ++ [f], pc := upd s.pc f (.tParked (t + d) (t + d + j)), now := t }
@@ -110,6 +128,9 @@ inductive Step : State → Label → State → Prop where
   | lockPark (s : State) (f : Fid) (h : s.pc f = .idle) (hf : ¬ Free s f) : Step s (.lockPark f) (doPark s f)
   /-- D6: `if (…) { _queue.Wait(); } LockHelper();` -/
   | lockWokenAcq (s : State) (f : Fid) (h : s.pc f = .woken) : Step s (.lockAcq f) (doWokenAcq s f)
+  /-- (repaired) the `while` condition again -/
+  | lockRecheckAcq (s : State) (f : Fid) (h : s.pc f = .locking) (hf : Free s f) : Step s (.lockAcq f) (lockHelper s f)
+  | lockRepark (s : State) (f : Fid) (h : s.pc f = .locking) (hf : ¬ Free s f) : Step s (.lockPark f) (doPark s f)
   | tryOk (s : State) (f : Fid) (h : s.pc f = .idle) (hf : Free s f) : Step s (.tryLock f true) (lockHelper s f)
   | tryFail (s : State) (f : Fid) (h : s.pc f = .idle) (hf : ¬ Free s f) : Step s (.tryLock f false) s
   /-- D4: no notify -/
@@ -125,6 +146,10 @@ inductive Step : State → Label → State → Prop where
       (ht : s.now ≤ t) : Step s (.tlfPark f t d j) (doTlfPark s f t d j)
   | tlfWokenAcq (s : State) (f : Fid) (hk : s.timed = true) (h : s.pc f = .tWoken) :
       Step s (.tlfAcq f) (doWokenAcq s f)
+  | tlfRecheckAcq (s : State) (f : Fid) (req : Nat) (hk : s.timed = true) (h : s.pc f = .tLocking req) (hf : Free s f) :
+      Step s (.tlfAcq f) (lockHelper s f)
+  | tlfRepark (s : State) (f : Fid) (req j : Nat) (hk : s.timed = true) (h : s.pc f = .tLocking req) (hf : ¬ Free s f) :
+      Step s (.tlfRepark f j) (doTlfRepark s f req j)
   | tlfTimeout (s : State) (f : Fid) (t req dl : Nat) (hk : s.timed = true) (h : s.pc f = .tParked req dl)
       (hd : dl ≤ t) (ht : s.now ≤ t) : Step s (.tlfTimeout f t) (doTlfTimeout s f t)
   | sleepStart (s : State) (f : Fid) (t d : Nat) (h : s.pc f = .idle) (ht : s.now ≤ t) :
@@ -133,9 +158,9 @@ inductive Step : State → Label → State → Prop where
       Step s (.sleepWake f t) { s with pc := upd s.pc f .idle, now := t }
   | finish (s : State) (f : Fid) (h : s.pc f = .idle) : Step s (.finish f) { s with pc := upd s.pc f .done }
 
-inductive Reachable (timed patch : Bool) (n : Nat) : State → Prop where
-  | init : Reachable timed patch n (init timed patch n)
-  | step {s l s'} : Reachable timed patch n s → Step s l s' → Reachable timed patch n s'
+inductive Reachable (timed patch loop : Bool) (n : Nat) : State → Prop where
+  | init : Reachable timed patch loop n (init timed patch loop n)
+  | step {s l s'} : Reachable timed patch loop n s → Step s l s' → Reachable timed patch loop n s'
 
 def Quiescent (s : State) : Prop := ∀ l s', ¬ Step s l s'
 
@@ -144,8 +169,13 @@ def next (s : State) : Label → Option State
       match s.pc f with
       | .idle => if Free s f then some (lockHelper s f) else none
       | .woken => some (doWokenAcq s f)
+      | .locking => if Free s f then some (lockHelper s f) else none
       | _ => none
-  | .lockPark f => if s.pc f = .idle ∧ ¬ Free s f then some (doPark s f) else none
+  | .lockPark f =>
+      match s.pc f with
+      | .idle => if ¬ Free s f then some (doPark s f) else none
+      | .locking => if ¬ Free s f then some (doPark s f) else none
+      | _ => none
   | .tryLock f ok =>
       if s.pc f = .idle then
         if ok then (if Free s f then some (lockHelper s f) else none)
@@ -161,6 +191,13 @@ def next (s : State) : Label → Option State
         match s.pc f with
         | .idle => if Free s f then some (lockHelper s f) else none
         | .tWoken => some (doWokenAcq s f)
+        | .tLocking _ => if Free s f then some (lockHelper s f) else none
+        | _ => none
+      else none
+  | .tlfRepark f j =>
+      if s.timed = true then
+        match s.pc f with
+        | .tLocking req => if ¬ Free s f then some (doTlfRepark s f req j) else none
         | _ => none
       else none
   | .tlfPark f t d j =>
@@ -187,10 +224,18 @@ theorem next_sound {s : State} {l : Label} {s' : State} (h : next s l = some s')
         · rename_i hf; cases h; exact .lockFast s f hp hf
         · cases h
       · rename_i hp; cases h; exact .lockWokenAcq s f hp
+      · rename_i hp; split at h
+        · rename_i hf; cases h; exact .lockRecheckAcq s f hp hf
+        · cases h
       · cases h
   | lockPark f =>
       simp only [next] at h; split at h
-      · rename_i hg; cases h; exact .lockPark s f hg.1 hg.2
+      · rename_i hp; split at h
+        · rename_i hf; cases h; exact .lockPark s f hp hf
+        · cases h
+      · rename_i hp; split at h
+        · rename_i hf; cases h; exact .lockRepark s f hp hf
+        · cases h
       · cases h
   | tryLock f ok =>
       simp only [next] at h; split at h
@@ -220,6 +265,17 @@ theorem next_sound {s : State} {l : Label} {s' : State} (h : next s l = some s')
           · rename_i hf; cases h; exact .tlfFast s f hk hp hf
           · cases h
         · rename_i hp; cases h; exact .tlfWokenAcq s f hk hp
+        · rename_i req hp; split at h
+          · rename_i hf; cases h; exact .tlfRecheckAcq s f req hk hp hf
+          · cases h
+        · cases h
+      · cases h
+  | tlfRepark f j =>
+      simp only [next] at h; split at h
+      · rename_i hk; split at h
+        · rename_i req hp; split at h
+          · rename_i hf; cases h; exact .tlfRepark s f req j hk hp hf
+          · cases h
         · cases h
       · cases h
   | tlfPark f t d j =>
